@@ -8,6 +8,7 @@
 #include "config.h"
 
 #include "sqfs/io.h"
+#include "sqfs/error.h"
 
 #include <string.h>
 
@@ -52,8 +53,11 @@ int sqfs_istream_skip(sqfs_istream_t *strm, sqfs_u64 size)
 		ret = strm->get_buffered_data(strm, &ptr, &diff, size);
 		if (ret < 0)
 			return ret;
-		if (ret > 0)
-			break;
+		if (ret > 0) {
+			/* end of input before everything was skipped: the
+			   caller asked for data that is not there */
+			return SQFS_ERROR_OUT_OF_BOUNDS;
+		}
 
 		if ((sqfs_u64)diff > size)
 			diff = size;
